@@ -13,3 +13,10 @@ open Gossamer.C33
 #print axioms goParse_encFields
 #print axioms C33_steps_linear_bresp
 #print axioms goParse_size
+#print axioms C33_steps_linear_sresp
+#print axioms C33_stream_no_panic
+#print axioms C33_stream_frame
+#print axioms C33_stream_buffer
+#print axioms C33_stream_old_panics
+#print axioms C33_stream_old_alloc
+#print axioms C33_stream_old_merges
